@@ -19,7 +19,8 @@ Theorem C08_bind_agrees_partial : forall (m : method) (sh : call_shape) (b : bin
 Proof. exact bind_agrees_partial. Qed.
 Print Assumptions C08_bind_agrees_partial.
 
-(* all handlers, inside the explicit guard of the two rows that disagree with Python *)
+(* all handlers, inside the explicit guard of the one row that still disagrees with Python
+   (LCD(...) with i2c_addr together with a parallel pin; RGBLed.on carries no guard any more) *)
 Theorem C08_bind_agrees_guarded : forall (m : method) (sh : call_shape) (b : binding),
   In m translated_methods ->
   guard_ok (guard_of m) sh = true ->
@@ -28,22 +29,22 @@ Theorem C08_bind_agrees_guarded : forall (m : method) (sh : call_shape) (b : bin
 Proof. exact bind_agrees_guarded. Qed.
 Print Assumptions C08_bind_agrees_guarded.
 
-(* RGBLed.on binds by position only: rgb.on(red=.., green=.., blue=..) keeps 255,255,255 *)
-Theorem C08_RGBLed_on_refuted : rgb_on_keyword_fix_landed = false ->
-  exists sh b b',
-    py_bind (sig_of (T "RGBLed.on")) sh = Some b /\
-    redu_bind (T "RGBLed.on") sh = Bound b' /\
-    b' <> restrict (device_params (T "RGBLed.on")) b.
-Proof. exact rgb_on_refuted. Qed.
-Print Assumptions C08_RGBLed_on_refuted.
+(* RGBLed.on (repaired: each colour is looked up by keyword first, then by position): every call
+   Python accepts is BOUND - this row never rejects - and bound exactly like Python; this replaces
+   the former C08_RGBLed_on_refuted (rgb.on(red=.., green=.., blue=..) kept 255,255,255) *)
+Theorem C08_RGBLed_on_binds : forall (sh : call_shape) (b : binding),
+  py_bind (sig_of (T "RGBLed.on")) sh = Some b ->
+  redu_bind (T "RGBLed.on") sh = Bound (restrict (device_params (T "RGBLed.on")) b).
+Proof. exact rgb_on_binds. Qed.
+Print Assumptions C08_RGBLed_on_binds.
 
-(* ... and the same row once the handler looks the keywords up (flag flipped in Lang/Bind.v) *)
-Theorem C08_RGBLed_on_fixed : rgb_on_keyword_fix_landed = true ->
-  forall sh b, py_bind (sig_of (T "RGBLed.on")) sh = Some b ->
-    redu_bind (T "RGBLed.on") sh = Rejected \/
-    redu_bind (T "RGBLed.on") sh = Bound (restrict (device_params (T "RGBLed.on")) b).
-Proof. exact rgb_on_fixed. Qed.
-Print Assumptions C08_RGBLed_on_fixed.
+(* ... in the form that literally negates the former refutation: no accepted call is bound differently *)
+Theorem C08_RGBLed_on_no_disagreement : forall (sh : call_shape) (b b' : binding),
+  py_bind (sig_of (T "RGBLed.on")) sh = Some b ->
+  redu_bind (T "RGBLed.on") sh = Bound b' ->
+  b' = restrict (device_params (T "RGBLed.on")) b.
+Proof. exact rgb_on_no_disagreement. Qed.
+Print Assumptions C08_RGBLed_on_no_disagreement.
 
 (* LCD(rs=.., i2c_addr=..): Python binds rs, the I2C branch of the handler never reads it *)
 Theorem C08_LCD_init_refuted :
@@ -115,6 +116,25 @@ Example C08_nonvacuous_binding :
   restrict (device_params (T "RGBLed.fade")) b = b.
 Proof. exact nonvacuous_binding. Qed.
 Print Assumptions C08_nonvacuous_binding.
+
+(* the three spellings of the property text - rgb.on(red=.., green=.., blue=..), rgb.on(r, g, b),
+   rgb.on(r, blue=.., green=..) - and a lone keyword with defaults: accepted by Python, bound by
+   the transpiler to the same arguments (RGBLed.on is an agreeing method: no guard) *)
+Example C08_nonvacuous_rgb_on :
+  let m := T "RGBLed.on" in
+  In m agreeing_methods /\
+  redu_bind m (mk_shape 0 [T "red"; T "green"; T "blue"]) =
+    Bound [(T "red", STag (TKw (T "red"))); (T "green", STag (TKw (T "green"))); (T "blue", STag (TKw (T "blue")))] /\
+  redu_bind m (mk_shape 3 []) =
+    Bound [(T "red", STag (TPos 0)); (T "green", STag (TPos 1)); (T "blue", STag (TPos 2))] /\
+  redu_bind m (mk_shape 1 [T "blue"; T "green"]) =
+    Bound [(T "red", STag (TPos 0)); (T "green", STag (TKw (T "green"))); (T "blue", STag (TKw (T "blue")))] /\
+  redu_bind m (mk_shape 0 [T "blue"]) =
+    Bound [(T "red", SDefault (DNum 255 1)); (T "green", SDefault (DNum 255 1)); (T "blue", STag (TKw (T "blue")))] /\
+  (forall sh, In sh [mk_shape 0 [T "red"; T "green"; T "blue"]; mk_shape 3 []; mk_shape 1 [T "blue"; T "green"]; mk_shape 0 [T "blue"]] ->
+     exists b, py_bind (sig_of m) sh = Some b /\ redu_bind m sh = Bound b).
+Proof. exact rgb_on_spellings. Qed.
+Print Assumptions C08_nonvacuous_rgb_on.
 
 Example C08_nonvacuous_rejections :
   py_bind (sig_of (T "RGBLed.set_color")) (mk_shape 4 []) = None /\
